@@ -570,7 +570,8 @@ def comb_update(v, n, new):
 
 
 class Machine:
-    def __init__(self, env=None, fuel=10000):
+    def __init__(self, env=None, fuel=10000, rec_reversed=False):
+        self.rec_reversed = rec_reversed  # NOT Michelson: LAMBDA_REC bodies started with the lambda ABOVE the argument
         self.env = dict(DEFAULT_ENV)
         if env:
             self.env.update(env)
@@ -597,6 +598,8 @@ class Machine:
         code = json.loads(f[1])
         if kind == 'lam':
             r = self.run(code, [(targ, arg)])
+        elif self.rec_reversed:
+            r = self.run(code, [(tf, f), (targ, arg)])
         else:
             r = self.run(code, [(targ, arg), (tf, f)])
         assert len(r) == 1, 'lambda left a stack of size != 1'
@@ -828,8 +831,8 @@ class Machine:
         raise IllTyped(f'unsupported instruction {p}/{na}')
 
 
-def run(code, stack, env=None, fuel=10000):
-    return Machine(env, fuel).run(code, stack)
+def run(code, stack, env=None, fuel=10000, rec_reversed=False):
+    return Machine(env, fuel, rec_reversed).run(code, stack)
 
 
 def selftest() -> int:
